@@ -743,6 +743,8 @@ class ReadSetReader:
                 for i, allele in enumerate(padded_alleles)
                 if restricted_variants is None or i in restricted_variants.as_vector()
             ]
+            if not distances:
+                return None, None  # no admissible allele (e.g. missing genotype)
             distances.sort(key=lambda x: x[1])
             base_qual_score = (
                 distances[0][1] - distances[1][1] if len(distances) > 1 else distances[0][1]
@@ -753,6 +755,8 @@ class ReadSetReader:
                 for i, allele in enumerate(padded_alleles)
                 if restricted_variants is None or i in restricted_variants.as_vector()
             ]
+            if not distances:
+                return None, None  # no admissible allele (e.g. missing genotype)
             distances.sort(key=lambda x: x[1])
             base_qual_score = 30
 
